@@ -19,3 +19,4 @@ CFG = dict(
      assumptions=["testing/synctest and runtime.Stack(all) snapshots are correct", "constant interval, so due order equals Batch-call order"],
      timeout_quick=600, timeout_thorough=3000)
 CFG["rule"] += " Added after independently written breaking changes: Also Subscribe calls with several channels (one shared context) and an injected fake clock (WithClock) a year away from the bubble's time."
+CFG["rule"] += ' Subscriber contexts are plain cancel contexts, contexts of a foreign type that relays cancellation some scheduler yields late (vk.RelayCtx), or busy parents with 300 other children. loop.empty is one of the processor points of the points sweep.'
